@@ -1,4 +1,5 @@
 import Mimium.Proofs.RustGen
+import Mimium.Proofs.MirLayout
 /-!
 # C18 — generated Rust code behaves like the VM   (level: PARTIAL)
 
@@ -18,6 +19,8 @@ What is a theorem here, for ALL inputs, is the logic the generated code rests on
 * `C18_fallthrough_arm_is_innermost` — in the block layout mirgen produces (arms properly nested, outer branch
   visited before inner; the executable predicate `nested`, evaluated on the MIR of every generated program by the
   check) the arm that `runCfg` lets a terminator-less block fall out of is the innermost enclosing `if`/`match` arm.
+* `C18_mirgen_layout_nested` — that premise is itself a theorem about the block numbering `mirgen.rs` gives to `if` and
+  `match` expressions nested to any depth (`Model/MirLayout.lean`).
 * `C18_embedded_state_eq_vm_state` — the `StateStorage` pasted into every generated program (template) computes, for
   every trace of state operations that stays inside the VM's storage, the VM's outputs and the VM's storage
   (`vmStep` of `Model/StateMachine.lean`), and never grows it; `C18_embedded_state_eq_wasm_host`: it is the WASM host's
@@ -147,6 +150,17 @@ theorem C18_fallthrough_arm_is_innermost (bs : Cfg) (hn : nested bs = true) (b :
         · simp at h
   exact key (arms bs) hn a h
 
+/-- the premise is a theorem for the block numbering of `mirgen.rs`: every nesting of `if` and `match` expressions, to any
+depth, evaluated from any block, yields properly nested arms in the order the generator visits them
+(`Model/MirLayout.lean`; the check compares `lay` with the arms of the real MIR of every generated function) -/
+theorem C18_mirgen_layout_nested (sh : Sh) (cur : Nat) : nestedArms (lay sh cur).arms = true :=
+  (lay_ok sh cur).nest
+
+/-- … and all its arms lie after the block it starts in and end at or before the block it finishes in -/
+theorem C18_mirgen_layout_bounds (sh : Sh) (cur : Nat) :
+    cur ≤ (lay sh cur).cur ∧ ∀ a ∈ (lay sh cur).arms, cur < a.start ∧ a.stop ≤ (lay sh cur).cur :=
+  ⟨(lay_ok sh cur).le, (lay_ok sh cur).bnd⟩
+
 /-- the emitted fall-through tail of block `b` is exactly that arm: `pred_bb = arm.start; bb = arm.merge; continue` -/
 theorem C18_fallthrough_edge_is_last_arm (bs : Cfg) (b : Nat) (hb : b < bs.length) :
     edgeAt (fallEdges bs) b = (lastContaining (arms bs) b).map (fun a => (a.merge, a.start)) :=
@@ -190,6 +204,8 @@ example : nested exNested = true ∧ (encode exNested).isSome = true ∧
     fallEdges exNested = [none, some (6, 1), some (4, 2), some (4, 3), some (6, 1), some (6, 5), none] ∧
     blockPreds exNested = [[], [0], [1], [1], [2, 3], [0], [1, 5]] := by
   decide +kernel
+
+example : (lay (.ite .leaf (.ite .leaf .leaf .leaf) .leaf) 0).arms = arms exNested := by decide +kernel
 
 /-- a concrete machine: the state is the trace of executed ops and moves; condition `c` is true iff `c` is odd -/
 def exSem : Sem (List (Nat × Nat)) (List (Nat × Nat)) :=
